@@ -189,6 +189,66 @@ package quickfix
 //@   requires fmwf(m)
 //@   ensures @present has(m.tagLookup, tag)
 //@   ensures @result len(result) == 1 && result == m.tagLookup[tag][:1]
+//@   ensures @len len(m.tagLookup[tag]) >= 1 && (!old(has(m.tagLookup, tag)) ==> len(m.tagLookup[tag]) == 1) && (old(has(m.tagLookup, tag)) ==> m.tagLookup[tag] == old(m.tagLookup[tag]))
 //@   ensures @others forall t Tag :: t != tag ==> (has(m.tagLookup, t) <==> old(has(m.tagLookup, t))) && m.tagLookup[t] == old(m.tagLookup[t])
 //@   ensures @order fmorder(m)
 //@   ensures @same m.tagLookup == old(m.tagLookup) && m.rwLock == old(m.rwLock) && m.compare == old(m.compare)
+
+//@ func (m *FieldMap) init [C10]
+//@   requires m.tags == nil
+//@   ensures @wf fmwf(m)
+//@   ensures @empty forall t Tag :: !has(m.tagLookup, t)
+//@   modifies m.*
+
+// add: used by the parser; the field carries its own tag
+//@ func (m *FieldMap) add [C09,C10,C11]
+//@   requires fmwf(m) && len(f) >= 1
+//@   ensures @present has(m.tagLookup, f[0].tag) && m.tagLookup[f[0].tag] == f
+//@   ensures @others forall t Tag :: t != f[0].tag ==> (has(m.tagLookup, t) <==> old(has(m.tagLookup, t))) && m.tagLookup[t] == old(m.tagLookup[t])
+//@   ensures @wf fmwf(m)
+//@   ensures @same m.tagLookup == old(m.tagLookup) && m.rwLock == old(m.rwLock) && m.compare == old(m.compare)
+
+// setters: afterwards the tag is present with a one-element field [tag = value] in a fresh buffer; all other tags untouched
+//@ spec onefield(m *FieldMap, tag Tag, value []byte) bool = has(m.tagLookup, tag) && len(m.tagLookup[tag]) >= 1 && m.tagLookup[tag][0].tag == tag && m.tagLookup[tag][0].value == value && tvwf(m.tagLookup[tag][0].bytes, tag, value, len(m.tagLookup[tag][0].bytes) - len(value) - 2)
+//@ spec otherssame(m *FieldMap, tag Tag) bool = forall t Tag :: t != tag ==> (has(m.tagLookup, t) <==> old(has(m.tagLookup, t))) && m.tagLookup[t] == old(m.tagLookup[t])
+
+//@ func (m *FieldMap) SetBytes [C10]
+//@   requires fmwf(m)
+//@   ensures @set onefield(m, tag, value)
+//@   ensures @single (!old(has(m.tagLookup, tag)) || old(len(m.tagLookup[tag])) == 1) ==> len(m.tagLookup[tag]) == 1
+//@   ensures @others otherssame(m, tag)
+//@   ensures @order fmorder(m)
+//@   ensures @ret result == m
+
+// replacing one cell changes the count by (new cell == t) - (old cell == t)
+//@ lemma cntTag_upd [C10]: induction n: forall n int, a int, p int, j int, t Tag :: (p <= j && j < p+n && (forall q :: p <= q && q < p+n && q != j ==> old(cell(Tag, a, q)) == cell(Tag, a, q))) ==> cntTag(a, p, n, t) == old(cntTag(a, p, n, t)) - (old(cell(Tag, a, j)) == t ? 1 : 0) + (cell(Tag, a, j) == t ? 1 : 0)
+// a tag that does not occur has count 0
+//@ lemma cntTag_zero [C10]: induction n: forall n int, a int, p int, t Tag :: (forall q :: p <= q && q < p+n ==> cell(Tag, a, q) != t) ==> cntTag(a, p, n, t) == 0
+
+//@ func (m *FieldMap) Remove [C10]
+//@   requires fmwf(m)
+//@   ensures @gone !has(m.tagLookup, tag)
+//@   ensures @others otherssame(m, tag)
+//@   ensures @vals m.tagLookup != nil && m.rwLock != nil && fmvals(m)
+//@   ensures @absent len(m.tags) == old(len(m.tags)) ==> tagcount(m, tag) == 0 && (forall t Tag :: tagcount(m, t) == old(tagcount(m, t)))
+//@   ensures @orderA len(m.tags) == old(len(m.tags)) ==> fmorder(m)
+//@   ensures @orderB len(m.tags) != old(len(m.tags)) ==> fmorder(m)
+//@   ensures @wf fmwf(m)
+//@   loop 1 invariant @notyet forall q :: off(m.tags) <= q && q <= off(m.tags) + $i ==> cell(Tag, arr(m.tags), q) != tag
+//@   loop 1 invariant @same m.tags == old(m.tags) && m.tagLookup == old(m.tagLookup) && m.rwLock == old(m.rwLock)
+//@   loop 1 invariant @cells forall q :: cell(Tag, arr(m.tags), q) == old(cell(Tag, arr(m.tags), q))
+//@   loop 1 decreases len(m.tags) - $i
+
+//@ func (m *FieldMap) clearNoLock [C10,C11]
+//@   requires m.tagLookup != nil && m.rwLock != nil
+//@   ensures @empty forall t Tag :: !has(m.tagLookup, t)
+//@   ensures @wf fmwf(m)
+//@   loop 1 invariant @deleted forall k Tag :: seen(k) ==> !has(m.tagLookup, k)
+//@   loop 1 invariant @tags len(m.tags) == 0 && m.tagLookup == old(m.tagLookup) && m.rwLock == old(m.rwLock)
+
+//@ func (m *FieldMap) Clear [C10]
+//@   requires m.tagLookup != nil && m.rwLock != nil
+//@   ensures @empty forall t Tag :: !has(m.tagLookup, t)
+//@   ensures @wf fmwf(m)
+//@   loop 1 invariant @deleted forall k Tag :: seen(k) ==> !has(m.tagLookup, k)
+//@   loop 1 invariant @tags len(m.tags) == 0 && m.tagLookup == old(m.tagLookup) && m.rwLock == old(m.rwLock)
